@@ -4,7 +4,7 @@ package builder
 
 // Injected into package builder with `go test -overlay` (nothing is written into /repo): runs the real
 // generator (real templates, real text/template, real TemplateBuilder) on the repository's example grammars in
-// all four Go modes and leaves the generated parsers in $GOVC_RENDER_OUT.
+// all four Go modes and in TypeScript and leaves the generated parsers in $GOVC_RENDER_OUT.
 
 import (
 	"fmt"
@@ -32,6 +32,22 @@ func TestGovcRender(t *testing.T) {
 			t.Fatal(err)
 		}
 		base := strings.TrimSuffix(filepath.Base(f), ".y")
+		// the TypeScript back end: the static driver text is the same for every grammar; user code (actions, prologue,
+		// epilogue) is dropped by the extraction, so the Go examples serve as well as the TypeScript one
+		func() {
+			name := base + "_ts"
+			defer func() {
+				if r := recover(); r != nil {
+					fmt.Printf("RENDER-SKIP %s: %v\n", name, r)
+				}
+			}()
+			file := filepath.Join(out, name+".ts")
+			if err := TsGenFromString(string(src), file); err != nil {
+				fmt.Printf("RENDER-SKIP %s: %v\n", name, err)
+				return
+			}
+			fmt.Printf("RENDERED %s\n", file)
+		}()
 		if base == "exprts" {
 			continue // TypeScript actions
 		}
